@@ -105,6 +105,7 @@ class ConfResult:
         self.sched = None
         self.fs = None
         self.listing_after = None
+        self.sqlite_dump = None
 
     def err_sig(self):
         if self.exc is None:
@@ -114,7 +115,7 @@ class ConfResult:
 
 def run_assign_confidence(tables, scores, conf, workdir, name, fmt="pin", row_group=None, sched_desc=None,
                           knobs=None, glob_seed=None, faults=None, killable=False, report_path=None,
-                          dest=None, descs=None, max_workers=1, read_workers=1, fasta_seed=None):
+                          dest=None, descs=None, max_workers=1, read_workers=1, fasta_seed=None, sqlite=False):
     """read_pin (un-simulated, 1 worker) then assign_confidence under the simulator."""
     import mokapot
 
@@ -143,6 +144,11 @@ def run_assign_confidence(tables, scores, conf, workdir, name, fmt="pin", row_gr
     prefixes = conf.get("prefixes")
     if prefixes is None:
         prefixes = [None] * len(paths)
+    db = None
+    if sqlite:
+        # results go to a result database supplied by the caller (a fresh one per run, next to the input files)
+        db = root / f"results_{os.path.basename(str(dest))}_{len(tables)}.db"
+        make_result_db(db, tables)
     with world.sim_env(sched_desc, knobs, faults=faults, glob_seed=glob_seed, killable=killable,
                        report_path=report_path) as (sch, fs):
         res.sched, res.fs = sch, fs
@@ -161,6 +167,7 @@ def run_assign_confidence(tables, scores, conf, workdir, name, fmt="pin", row_gr
                 do_rollup=conf.get("rollup", True),
                 proteins=proteins,
                 rng=conf.get("seed", 0),
+                **({"sqlite_path": db} if db is not None else {}),
             )
         except (Exception, SystemExit) as exc:  # noqa: BLE001  (triqler calls sys.exit on degenerate input)
             res.exc = exc
@@ -170,7 +177,46 @@ def run_assign_confidence(tables, scores, conf, workdir, name, fmt="pin", row_gr
         if fp.is_file():
             with open(fp, "rb") as fh:
                 res.files[f] = fh.read()
+    if db is not None:
+        res.sqlite_dump = dump_result_db(db)
     return res
+
+
+_DB_TABLES = {
+    "CANDIDATE": ("CANDIDATE_ID", "PSM_FDR REAL, SVM_SCORE REAL, POSTERIOR_ERROR_PROBABILITY REAL"),
+    "PEPTIDE_VALIDATION": ("PEPTIDE_ID", "FDR REAL, PEP REAL, SVM_SCORE REAL"),
+    "MODIFIED_PEPTIDE_VALIDATION": ("MODIFIED_PEPTIDE_ID", "FDR REAL, PEP REAL, SVM_SCORE REAL"),
+    "PRECURSOR_VALIDATION": ("PCM_ID", "FDR REAL, PEP REAL, SVM_SCORE REAL"),
+    "PEPTIDE_GROUP_VALIDATION": ("PEPTIDE_GROUP_ID", "FDR REAL, PEP REAL, SVM_SCORE REAL"),
+}
+
+
+def make_result_db(path, tables):
+    """A result database of the layout mokapot's sqlite writer expects (table and column names); identifiers are text.
+    Every PSM is pre-registered as a candidate, the level tables are empty."""
+    import sqlite3
+
+    if os.path.exists(path):
+        os.unlink(path)
+    con = sqlite3.connect(path)
+    for name, (idc, rest) in _DB_TABLES.items():
+        con.execute(f"CREATE TABLE {name} ({idc} TEXT NOT NULL, {rest}, PRIMARY KEY ({idc}))")
+    for t in tables:
+        si = t["columns"].index("SpecId")
+        con.executemany("INSERT INTO CANDIDATE (CANDIDATE_ID) VALUES(?)", [(str(r[si]),) for r in t["rows"]])
+    con.commit()
+    con.close()
+
+
+def dump_result_db(path):
+    import sqlite3
+
+    con = sqlite3.connect(path)
+    out = {}
+    for name, (idc, _rest) in _DB_TABLES.items():
+        out[name] = [list(r) for r in con.execute(f"SELECT * FROM {name} ORDER BY {idc}")]
+    con.close()
+    return out
 
 
 def run_rollup(src_dir, dest_dir, level="psm", file_root="rollup", sched_desc=None, knobs=None, glob_seed=None,
